@@ -63,7 +63,7 @@ func (x *Exec) atChan(what string, chv ssa.Value, ch Val, v Val, c *ssa.CallComm
 		if !match && ch.T != "" && isPlainIdent(at.Pattern) && !x.hasSourceName(at.Pattern) {
 			// the hook names a variable that no longer exists under that name (a
 			// renamed or rewritten range variable): match by value
-			if pv, ok := x.tryEvalName(at.Pattern); ok && pv.Sort == x.materialize(ch).Sort {
+			if pv, ok := x.tryEvalName(at.Pattern); ok && pv.Sort == x.materialize(ch).Sort && pv.GT != nil && types.Identical(pv.GT, chv.Type()) {
 				match = true
 				if cv := x.materialize(ch); pv.T != cv.T {
 					// must be the same channel: proved, not assumed
